@@ -382,7 +382,9 @@ def is_quasi_affine(expr: Expression) -> bool:
         set=list(get_dependencies(expr)),
         )
     try:
-        guarded_pwaff_from_expr(space, expr)
+        # pass vars_to_zero explicitly: its default (None) is not accepted by
+        # every loopy version, which made this function return False always.
+        guarded_pwaff_from_expr(space, expr, frozenset())
     except ExpressionToAffineConversionError:
         return False
     return True
